@@ -9,7 +9,7 @@
 EXTENDS Integers, Sequences, SequencesExt, FiniteSets, TLC, Json
 
 CONSTANTS Priors,        \* which prior trees to use (indices)
-          RichB          \* TRUE: key "b" ranges over the full entry universe too
+          RichB          \* how far key "b" ranges over the entry universe: "no" | "dicts" | "full"
 
 VARIABLES case, done
 vars == <<case, done>>
@@ -43,7 +43,11 @@ Entry0 == {File("c1"), File("c2"), File("c0"), BadNum, BadSet}
 Dicts0 == {<<>>} \cup {<< <<"a", e>> >> : e \in Entry0}
 Entry1 == Entry0 \cup {[t |-> "dict", d |-> d] : d \in Dicts0 \ {<<>>}}    \* {} alone is the empty FILE (File("c0")), see the docs
                  \cup {Cfg(x, TRUE, d, "-") : x \in {"none", "replace", "merge", "ignore"}, d \in Dicts0 \ {<<>>}}
-TopB == IF RichB THEN Entry1 ELSE Entry0
+\* RichB: "no" (simple entries), "dicts" (also plain nested dicts: a directory where the prior tree may
+\* hold a file), "full"
+TopB == CASE RichB = "full" -> Entry1
+          [] RichB = "dicts" -> Entry0 \cup {[t |-> "dict", d |-> d] : d \in Dicts0 \ {<<>>}}
+          [] OTHER -> Entry0
 \* top-level key variants that are not a single path segment: the description is invalid
 BadKeys == {"numkey", "dotdot", "dot", "empty"}    \* "a/b" style keys address nested paths (pinned by the suite)
 
